@@ -582,6 +582,41 @@ DIR_READERS = {
 }
 
 
+def posdirsource(run, fx):
+    """PASSORDER: Segment::positionSlots lays the stream out in the direction it is TOLD and first reverses it when that differs from
+    the order the stream is in.  Every caller therefore tells it a direction that describes the stream at that moment -- the current
+    order (Segment::currdir()), the direction of the pass that is running (SlotMap::dir()), the font's direction once all passes have
+    run (Silf::dir(), Segment::finalise), or justify's own whole direction byte -- never the bare direction of the TEXT (m_dir & 1): for
+    text shaped against the font's direction the stream is laid out the wrong way round and every shift.x is mirrored."""
+    OK = ('graphite2::Segment::currdir', 'graphite2::SlotMap::dir', 'graphite2::Silf::dir')
+    n, bad = 0, None
+    for fn in fx.all_fns():
+        if not fn.file.startswith('src/') or fn.f.get('implicit'):
+            continue
+        for e in calls_in(fn, 'graphite2::Segment::positionSlots'):
+            args = e.get('args') or []
+            if len(args) < 4 or args[3] is None:
+                continue
+            n += 1
+            a = fn.strip_all_casts(fn.N(args[3]))
+            if a['k'] in ('CXXMemberCallExpr', 'CallExpr') and (a.get('fq') or '') in OK:
+                continue
+            if a['k'] == 'MemberExpr' and a.get('d') == 'graphite2::Segment::m_dir' and fn.q == 'graphite2::Segment::justify':
+                continue
+            if a['k'] == 'CXXDefaultArgExpr' or a.get('v') is not None:
+                continue
+            bad = bad or (fn, e, a)
+    inst = 'positionSlots is told a direction that describes the stream'
+    if n < 8:
+        run.broken('PASSORDER', inst, 'only %d positionSlots calls with an explicit direction found' % n)
+    elif bad:
+        fn, e, a = bad
+        run.violated('PASSORDER', inst, fn.loc(e), '%s hands positionSlots the direction `%s`: that is neither the order the stream is in (currdir()), nor the running pass\' direction, nor the font\'s -- '
+                     'when the text runs against the font the stream is reversed once too often for the layout and every horizontal shift comes out mirrored' % (fn.q.split('graphite2::')[-1], fn.render(a)))
+    else:
+        run.held('PASSORDER', inst, '', '%d calls; sources: currdir(), SlotMap::dir(), Silf::dir(), justify\'s m_dir' % n)
+
+
 def dirreaders(run, fx):
     """PASSORDER: passes run on the stream in PASS order (the engine reverses the stream between passes when the text runs the other
     way), so what a rule action does -- attach, shift, kern -- depends on the direction of the slot map (the pass), never on the direction
@@ -653,6 +688,21 @@ def run(run):
         run.broken('PRECEDENCE', irf_, str(ex), '')
     firstpassing(run, fx)
     dirreaders(run, fx)
+    posdirsource(run, fx)
+    if not run.cfg_tag:
+        from . import c02 as c02s_
+        c02s_.attrstride(run, 'ATTRSEM')          # a user attribute a rule set is what a later constraint reads, also while a log is open (shared with C02)
+    try:
+        from . import c02 as c02_
+        cases_, bad_ = c02_.adjustexec(run, fx)        # "resumes at the position the rule returns": the cursor move and the high-water bookkeeping of Pass::adjustSlot (shared with C02)
+        aj_ = fx.one('graphite2::Pass::adjustSlot')
+        ia_ = 'the cursor moves by the offset the rule returns, highpassed() only beyond the high-water slot (adjustSlot interpreted)'
+        if bad_:
+            run.violated('ATTRSEM', ia_, aj_.where(), bad_)
+        else:
+            run.held('ATTRSEM', ia_, aj_.where(), '%d abstract executions' % cases_)
+    except AnalysisBroken as ex:
+        run.broken('ATTRSEM', 'adjustSlot interpreted', str(ex), '')
     inst_ = 'INSERT / DELETE change the stream as documented: the one slot added / removed, cursor and high-water mark moved with it (handlers interpreted)'
     try:
         from . import c03 as c03_
